@@ -176,6 +176,10 @@ func (e errReader) Read([]byte) (int, error) { return 0, e.err }
 
 var runConnCalls int
 
+// runConnNoSniff: C20 counts the bytes pulled from the reader; a sniffing validator would pull up to
+// five of them ahead of the parser
+var runConnNoSniff bool
+
 // runConn drives a Connection (single attempt, no retries) over the reader.
 func runConn(rd io.Reader, buf []byte, maxSize int) (obs readObs) {
 	defer func() {
@@ -194,7 +198,7 @@ func runConn(rd io.Reader, buf []byte, maxSize int) (obs readObs) {
 		HTTPClient: &http.Client{Transport: rt},
 		Backoff:    sse.Backoff{MaxRetries: -1},
 	}
-	if runConnCalls%3 == 2 {
+	if runConnCalls%3 == 2 && !runConnNoSniff {
 		// a validator that sniffs the beginning of the stream and puts it back (the usual
 		// MultiReader idiom): the connection reads the body the validator leaves in the response
 		cl.ResponseValidator = func(res *http.Response) error {
